@@ -11,6 +11,7 @@ import (
 	"regexp"
 	"strconv"
 	"strings"
+	"syscall"
 	"time"
 )
 
@@ -205,6 +206,10 @@ func RunTLAPS(module string, timeout time.Duration) (int, string, error) {
 	defer cancel()
 	cmd := exec.CommandContext(ctx, "tlapm", "--threads", "8", "--stretch", "4", "-I", dir, module+".tla")
 	cmd.Dir = dir
+	// the proof manager starts back-end provers: on timeout the whole process group goes
+	cmd.SysProcAttr = &syscall.SysProcAttr{Setpgid: true}
+	cmd.Cancel = func() error { return syscall.Kill(-cmd.Process.Pid, syscall.SIGKILL) }
+	cmd.WaitDelay = 5 * time.Second
 	var buf bytes.Buffer
 	cmd.Stdout = &buf
 	cmd.Stderr = &buf
